@@ -38,8 +38,17 @@ def impl_label(case) -> str:
         try:
             make_graph(case["nodes"], []).visualize(**kwargs)
         except KeyError as e:
-            missing = [k for k, _ in case["aliases"] if k in str(e.args[0])]
-            return "ERR:lookupError:" + (enc(sorted(missing, key=len)[-1]) if missing else "?")
+            # which aliased module does the error name? Only aliased modules that really are absent are candidates
+            # (an existing one-letter module name is a substring of any English sentence); the current wording is tried
+            # first, then the first absent candidate (dict order) whose name occurs in the message.
+            msg = str(e.args[0])
+            absent = [k for k, _ in case["aliases"] if k not in case["nodes"]]
+            import re as _re
+            m = _re.search(r"for module (.*), but the module does not exist", msg, _re.S)
+            if m and m.group(1) in absent:
+                return "ERR:lookupError:" + enc(m.group(1))
+            missing = [k for k in absent if k in msg]
+            return "ERR:lookupError:" + (enc(missing[0]) if missing else "?")
         except Exception as e:  # noqa: BLE001
             return "ERR:other:" + type(e).__name__
     finally:
